@@ -87,7 +87,7 @@ Proof.
 Qed.
 
 Lemma codec_pad size n : zassoc size (cd_enc_pad cd) = Some n ->
-  Z.of_nat n = size /\ (0 < n)%nat /\ exists sg, zassoc size (cd_dec_pad cd) = Some (n, sg).
+  Z.of_nat n = size /\ width_ok n = true /\ exists sg, zassoc size (cd_dec_pad cd) = Some (n, sg).
 Proof.
   intro Hz.
   assert (Hin : In (size, n) (cd_enc_pad cd)).
@@ -96,7 +96,7 @@ Proof.
   pose proof Hcd as H0. unfold codec_ok in H0. repeat (apply andb_split in H0; destruct H0 as [H0 ?]).
   match goal with H : forallb (pad_ok cd) _ = true |- _ => rewrite forallb_forall in H; specialize (H _ Hin); unfold pad_ok in H;
     apply andb_split in H; destruct H as [Hp1 Hp2]; apply andb_split in Hp1; destruct Hp1 as [Hp1 Hp3] end.
-  apply Z.eqb_eq in Hp1. apply Nat.ltb_lt in Hp3. split; [assumption|]. split; [assumption|].
+  apply Z.eqb_eq in Hp1. split; [assumption|]. split; [exact Hp3|].
   destruct (zassoc size (cd_dec_pad cd)) as [[n' sg]|]; [|discriminate].
   apply Nat.eqb_eq in Hp2. subst n'. now exists sg.
 Qed.
@@ -487,7 +487,8 @@ Proof.
       destruct e as [| | |size| |]; try discriminate. cbn [enc_loop] in Henc.
       destruct (zassoc size (cd_enc_pad cd)) as [n|] eqn:Ez; [|discriminate].
       bind_ok Henc r Hr. destruct r as [[[[b m'] w] st''] bit'']. inv Henc.
-      destruct (codec_pad cd Hcd _ _ Ez) as [Hsz [Hn0 [sg Hd]]].
+      destruct (codec_pad cd Hcd _ _ Ez) as [Hsz [Hwn [sg Hd]]].
+      assert (Hn0 : (0 < n)%nat) by (unfold width_ok in Hwn; apply andb_split in Hwn; destruct Hwn as [Hwn _]; now apply Nat.ltb_lt).
       rewrite zlen_app, zlen_le_bytes in Hsmall. pose proof (zlen_nonneg b) as Hb0.
       destruct (IH args bit k st b m st' bit' Ha0' Hstr' Hbl' Hfit Hk ltac:(lia) ltac:(intro; apply Hbit; lia) Hr ltac:(lia)) as [dm [Hm [Hdm Hdec]]].
       exists dm. split; [assumption|]. split; [assumption|].
